@@ -256,7 +256,10 @@ def c_find_group_cohorts(ex, st, a, k, node):
     require_numpy(ex, st, a[0], node, "find_group_cohorts (np.asarray(labels))")
     pref = z3.String(f"preferred!{fresh('p').decl().name()}")
     st.assume(plan.s_in(pref, plan.METHODS))
-    return (pref, Cohorts(z3.Bool(f"cohorts_nonempty!{fresh('c').decl().name()}")))
+    nonempty = z3.Bool(f"cohorts_nonempty!{fresh('c').decl().name()}")
+    # contract of find_group_cohorts (bounded-exhaustive in C09): it proposes "cohorts" only together with a non-empty set of cohorts
+    st.assume(z3.Implies(pref == z3.StringVal("cohorts"), nonempty))
+    return (pref, Cohorts(nonempty))
 
 
 def c_choose_method(ex, st, a, k, node):
@@ -379,6 +382,7 @@ def config_models(prims):
         st.assume(n >= 1)
         i = fresh("i")
         out = SSeq.from_array(n, arr, kind="tuple", name="axis_")
+        out.axis_len = n
         from ..pyvc.engine import forall
 
         st.assume(forall(i, z3.Implies(in_range(i, 0, n), in_range(out.at(i), 0, to_z3(a[1])))))
